@@ -212,7 +212,7 @@ def compute_attractor_candidates(
         graph_reduced, node_nfvs, child_motifs_reduced
     )
 
-    if not greedy_asp_minification:
+    if not greedy_asp_minification or len(node_nfvs) == 0:
         candidate_states = compute_fixed_point_reduced_STG(
             pn_reduced,
             retained_set,
@@ -274,7 +274,9 @@ def compute_attractor_candidates(
                     solution_limit=sd.config["attractor_candidates_limit"],
                 )
 
-                if len(candidate_states_zero) <= len(candidate_states):
+                if len(candidate_states_zero) < sd.config[
+                    "attractor_candidates_limit"
+                ] and len(candidate_states_zero) <= len(candidate_states):
                     if sd.config["debug"]:
                         print(
                             f"[{node_id}] Chosen {var}=0 without increasing candidate count ({len(candidate_states_zero)}). {len(retained_set)}/{len(node_nfvs)} variables chosen."
@@ -308,7 +310,7 @@ def compute_attractor_candidates(
                     candidate_states = candidate_states_one
                     continue
 
-                if len(candidate_states_zero) < len(candidate_states_one):
+                if len(candidate_states_zero) <= len(candidate_states_one):
                     if sd.config["debug"]:
                         print(
                             f"[{node_id}] Chosen {var}=0 with better candidate count ({len(candidate_states_zero)}). {len(retained_set)}/{len(node_nfvs)} variables chosen."
